@@ -30,11 +30,11 @@ GRID = [0, 0, 1, 1, 2, 3, 0.5]
 
 
 def plan(tier):
-    return {"shards": 4, "timeout": 600} if tier == "quick" else {"shards": 16, "timeout": 3000}
+    return {"shards": 4, "timeout": 600} if tier == "quick" else {"shards": 16, "timeout": 3400}
 
 
 def ncases(tier):
-    return 5000 if tier == "quick" else 9000
+    return 5000 if tier == "quick" else 60000
 
 
 def gen_case(rng):
